@@ -9,7 +9,7 @@ from ..core import Ctx
 from ..effects import STORAGE_READS
 from ..flow import ALL, find_path, names_in
 from ..model import AnalysisError, FunctionInfo, dotted, norm_text
-from .common import (edge_target, guarded_names, handler_exits, handler_key, handler_nodes, in_handler, owner_tops,
+from .common import (pure_guard, edge_target, guarded_names, handler_exits, handler_key, handler_nodes, in_handler, owner_tops,
                      in_try_body, reachable_from, try_body_calls)
 
 EXPLANATION = (
@@ -151,6 +151,10 @@ def r1(ctx: Ctx, rid: str = "C07.R1") -> None:
             if bool(ex["raise"]) and not swallow and all(r.raised == "reraise" for r in ex["raise"]):
                 ctx.ob(rid, m, role, hn, True, "re-raises the failure unchanged on every path (bookkeeping only): it propagates out "
                        "of the collection exactly as without the handler", text="")
+                continue
+            if bool(ex["raise"]) and not swallow and not ops and pure_guard(ctx, m, hn):
+                ctx.ob(rid, m, role, hn, True, "guards a pure computation (argument / configuration parsing) and raises on every path: the "
+                       "collection fails before anything is decided", text="")
                 continue
             cs = handler_classes(h)
             key: Optional[Tuple[str, str]] = None
